@@ -227,6 +227,14 @@ func PanicSig(r interface{}, stack []byte) (string, string) {
 // Shard / NShards identify this worker (set by Main before any case runs).
 var Shard, NShards uint64 = 0, 1
 
+// LoopAddr is the loopback address that belongs to this worker process alone: 127.<run>.<shard+1>.1,
+// where <run> distinguishes check runs going on at the same time (VERIF_LOOP, set by the runner).
+func LoopAddr() [4]byte {
+	run := 0
+	fmt.Sscan(os.Getenv("VERIF_LOOP"), &run)
+	return [4]byte{127, byte(run), byte(Shard + 1), 1}
+}
+
 // Main parses flags and runs the requested space shard.
 func Main(spaces map[string]func(tier string) Space) {
 	var (
